@@ -299,6 +299,9 @@ impl RSchema {
 		} else {
 			None
 		};
+		// without a full plan, definitions go to the first occurrence in document order, except for
+		// occurrences that *must* carry the definition (null-namespace type inside a namespace)
+		let plan = plan.or_else(|| Some(self.forced_definition_sites()));
 		let mut st = SpellState {
 			s: self,
 			fancy,
@@ -306,6 +309,44 @@ impl RSchema {
 			defined: HashSet::new(),
 		};
 		st.node(0, None, (usize::MAX, 0), rng)
+	}
+
+	/// Occurrences (parent, slot) of null-namespace named types that lie inside a namespace: such an
+	/// occurrence cannot be a reference, so it has to carry the definition.
+	fn forced_definition_sites(&self) -> HashMap<Id, (Id, usize)> {
+		let reach = self.reachable();
+		let mut unnamed_parent: HashMap<Id, Id> = HashMap::new();
+		for &p in &reach {
+			for c in self.children(p) {
+				if !self.is_named(c) {
+					unnamed_parent.insert(c, p);
+				}
+			}
+		}
+		let ctx_is_ns = |mut p: Id| -> bool {
+			let mut steps = 0;
+			loop {
+				if let Kind::Record { name, .. } = &self.nodes[p].kind {
+					return name.contains('.');
+				}
+				match unnamed_parent.get(&p) {
+					Some(&q) if steps < self.nodes.len() => {
+						p = q;
+						steps += 1;
+					}
+					_ => return false,
+				}
+			}
+		};
+		let mut out = HashMap::new();
+		for &p in &reach {
+			for (slot, c) in self.children(p).into_iter().enumerate() {
+				if c != 0 && self.fullname(c).map_or(false, |f| !f.contains('.')) && ctx_is_ns(p) {
+					out.insert(c, (p, slot));
+				}
+			}
+		}
+		out
 	}
 
 	/// For each named node pick the edge (parent, slot) that carries its definition; None if
@@ -537,8 +578,8 @@ impl<'a> SpellState<'a> {
 		let define_here = if self.defined.contains(&id) {
 			false
 		} else {
-			match &self.plan {
-				Some(plan) if id != 0 => plan.get(&id) == Some(&edge),
+			match self.plan.as_ref().and_then(|p| p.get(&id)) {
+				Some(e) if id != 0 => *e == edge,
 				_ => true,
 			}
 		};
